@@ -34,7 +34,7 @@ let op_of_string (s : string) : (op * [`Hex | `Str]) option =
   | "from_i32" -> h (OFromInt (z 32, true)) | "from_u32" -> h (OFromInt (z 32, false))
   | "from_i64" -> h (OFromInt (z 64, true)) | "from_u64" -> h (OFromInt (z 64, false))
   | "lrint" -> h OLrint | "llrint" -> h OLrint | "lround" -> h OLround | "llround" -> h OLround
-  | "cmp" -> h OCmp | "ops" -> h OOps | "hasheq" -> h OHashEq | "hashset" -> h OHashSet
+  | "cmp" -> h OCmp | "ops" -> h OOps | "hasheq" -> h OHashEq | "hashset" -> h OHashSet | "hashsliceeq" -> h OHashSliceEq
   | "serde" -> h OSerde | "serde_de" -> st OSerdeDe | "nan" -> st ONanTag | "consts" -> h OConsts | "macro" -> h OMacro
   | "parse" -> st OParse | "fromstr" -> st OFromStr | "fromstr2" -> st OFromStr2 | "fmt" -> h OFmt
   | "o_add" -> h (OOpArith OAdd) | "o_sub" -> h (OOpArith OSub) | "o_mul" -> h (OOpArith OMul)
